@@ -18,7 +18,7 @@ with open("/verif/seeded/INDEX.md", "w") as f:
             "Each directory holds patch.diff (against /repo HEAD at the time), demo.py (exits 1 on the changed tree, 0 on the clean one) and meta.json.\n"
             "All of them leave the repository's 263 pinned tests passing. `tools/eval_mutation.sh <PROP> seeded/<dir>` re-runs the confirmation.\n"
             "Five patches (C04-m3, C07-m1, C13-m4, C15-r3m3, C19-r3m1) were written against an earlier HEAD and no longer apply since the function they change was repaired later "
-            "(`fix:` commits e398d53 / 9babc8c, b3a99c6, c53ef23, cedb353 follow-ups, 9babc8c); meta.json records the confirmation at the time. Names: m<k> = first round for that property, "
+            "by one of the `fix:` commits in /repo; meta.json records the confirmation at the time. Names: m<k> = first round for that property, "
             "r3 / r4 / r5 = later rounds.\n\n"
             "| id | change | needs | reported by | first bucket |\n|---|---|---|---|---|\n")
     for r in rows:
